@@ -107,6 +107,16 @@ CLAIMED = {
               "dimension and of the result."),
         ref="4 C08, 3.5", note="numba is absent: kernels are executed through the pure-Python guvectorize stand-in in harness/numba_shim. " + TRUST,
         technique="TLA+ spec (LinearInterp) model-checked with TLC + TLC trace validation of real transform calls"),
+    "C15": dict(
+        text=("The signature language is specified in TLA+ at character level (lexer, grammar, printer, canonical renaming, "
+              "must-reject classes); TLC checks on all structures of a small bound and all single-character edits of their "
+              "printouts that parse(print(s)) = s, that well-formed texts print back to themselves and that no text is both "
+              "well-formed and in a must-reject class; real from_string / str / equivalent / type-hint results for the "
+              "exhaustive small structures, thousands of random larger ones, their single-character corruptions and "
+              "renaming / merging / position-changing pairs are validated by the TLA+ trace specification with a three-valued "
+              "verdict (must accept, must reject, unconstrained); the predefined operator of each of the eight shifts must be "
+              "found for any axis name."),
+        ref="4 C15, 3.8", technique="TLA+ character-level grammar (Signature) model-checked with TLC + TLC trace validation of the real parser, printer and equivalence"),
 }
 
 PENDING_REASON = "check not built yet in this session (planned; see DESIGN.md section 9 build order)"
